@@ -85,19 +85,20 @@ Theorem C05_sdp_remarshal_no_panic : forall E ord text os d,
 Proof. exact remarshal_no_panic. Qed.
 Print Assumptions C05_sdp_remarshal_no_panic.
 
-(* "any description it accepts can be marshalled again and re-parsed to the same value" is FALSE of the
-   unchanged code: two independent witnesses (Generic fmtp value ending in a tab; H264 parameter set with
-   a doubled Annex-B start code).  Both are replayed on the implementation by the harness on every run
-   (classes sdp-reparse-generic-fmtp-trailing-space, sdp-reparse-startcode-retrimmed). *)
-Theorem C05_sdp_reparse_stable_refuted_generic : exists E text os d1 t1 d2,
-  parse_text E ord_id text os = Ok d1 /\ marshal_text d1 = Ok t1 /\ parse_text E ord_id t1 os = Ok d2 /\ d2 <> d1.
-Proof. exact reparse_refuted_generic. Qed.
-Print Assumptions C05_sdp_reparse_stable_refuted_generic.
+(* History: on the tree before the fix commits 4d3e573 / c186975 this clause was REFUTED by two witnesses
+   (Generic fmtp value ending in a tab; H264 parameter set with a doubled Annex-B start code), see
+   coq/sdp/history/.  For the repaired code the same two texts are fixed points (regression theorems, also
+   replayed on the implementation by the harness on every run; the oracle classes
+   sdp-reparse-generic-fmtp-trailing-space and sdp-reparse-startcode-retrimmed still exist). *)
+Theorem C05_sdp_reparse_regression_generic : exists d1 t1,
+  parse_text E_none ord_id w1_text [] = Ok d1 /\ marshal_text d1 = Ok t1 /\ parse_text E_none ord_id t1 [] = Ok d1.
+Proof. exact reparse_witness_generic_stable. Qed.
+Print Assumptions C05_sdp_reparse_regression_generic.
 
-Theorem C05_sdp_reparse_stable_refuted_startcode : exists E text os d1 t1 d2,
-  parse_text E ord_id text os = Ok d1 /\ marshal_text d1 = Ok t1 /\ parse_text E ord_id t1 os = Ok d2 /\ d2 <> d1.
-Proof. exact reparse_refuted_startcode. Qed.
-Print Assumptions C05_sdp_reparse_stable_refuted_startcode.
+Theorem C05_sdp_reparse_regression_startcode : exists d1 t1,
+  parse_text E_sps ord_id w2_text [] = Ok d1 /\ marshal_text d1 = Ok t1 /\ parse_text E_sps ord_id t1 [] = Ok d1.
+Proof. exact reparse_witness_startcode_stable. Qed.
+Print Assumptions C05_sdp_reparse_regression_startcode.
 
 (* The strongest fixpoint statement proved: an accepted description that is well-formed re-marshals
    and re-parses to itself.  MISSING for the full clause: accepted descriptions outside wf_desc, i.e.
